@@ -144,11 +144,11 @@ ParCSRMatrix* par_stencil_grid(data_t* stencil, int* grid, int dim)
             // these blocks of data
             len = 1;
             step = 1;
-            for (index_t k = 0; k < (dim-j-1); k++)
+            for (index_t k = j+1; k < dim; k++)
             {
                 len *= grid[k];
             }
-            step = len * grid[0];
+            step = len * grid[j];
 
             //zeros at beginning
             if (idx > 0)
